@@ -43,9 +43,10 @@ SBML_DOT = "__SBML_DOT__"
 
 UNARY = {
     "sqrt": libsbml.AST_FUNCTION_ROOT,
-    "remainder": libsbml.AST_FUNCTION_REM,
     "abs": libsbml.AST_FUNCTION_ABS,
     "ceil": libsbml.AST_FUNCTION_CEILING,
+    "floor": libsbml.AST_FUNCTION_FLOOR,
+    "exp": libsbml.AST_FUNCTION_EXP,
     "sin": libsbml.AST_FUNCTION_SIN,
     "cos": libsbml.AST_FUNCTION_COS,
     "tan": libsbml.AST_FUNCTION_TAN,
@@ -180,14 +181,27 @@ def _convert_ifexp(node: ast.IfExp) -> libsbml.ASTNode:
     return sbml_node
 
 
-def _convert_direct_call(node: ast.Call) -> libsbml.ASTNode:
-    func = cast(ast.Name, node.func).id
+def _convert_known_call(func: str, node: ast.Call) -> libsbml.ASTNode:
+    """Convert a call of a function with a MathML counterpart.
+
+    Anything else (helper functions, functions missing from the tables, wrong
+    number of arguments, keyword arguments) cannot be represented and raises.
+    """
+    if node.keywords or any(isinstance(arg, ast.Starred) for arg in node.args):
+        msg = f"Keyword or starred arguments in call of {func}"
+        raise NotImplementedError(msg)
 
     if (typ := UNARY.get(func)) is not None:
+        if len(node.args) != 1:
+            msg = f"{func} with {len(node.args)} arguments"
+            raise NotImplementedError(msg)
         sbml_node = libsbml.ASTNode(typ)
         sbml_node.addChild(_convert_node(node.args[0]))
         return sbml_node
     if (typ := BINARY.get(func)) is not None:
+        if len(node.args) != 2:  # noqa: PLR2004
+            msg = f"{func} with {len(node.args)} arguments"
+            raise NotImplementedError(msg)
         sbml_node = libsbml.ASTNode(typ)
         sbml_node.addChild(_convert_node(node.args[0]))
         sbml_node.addChild(_convert_node(node.args[1]))
@@ -198,39 +212,27 @@ def _convert_direct_call(node: ast.Call) -> libsbml.ASTNode:
             sbml_node.addChild(_convert_node(arg))
         return sbml_node
 
-    # General function call
-    sbml_node = libsbml.ASTNode(libsbml.AST_FUNCTION)
-    for arg in node.args:
-        sbml_node.addChild(_convert_node(arg))
-    return sbml_node
+    msg = f"Function {func} cannot be represented in SBML"
+    raise NotImplementedError(msg)
+
+
+def _convert_direct_call(node: ast.Call) -> libsbml.ASTNode:
+    func = cast(ast.Name, node.func).id
+    return _convert_known_call(func, node)
 
 
 def _convert_library_call(node: ast.Call) -> libsbml.ASTNode:
     func = cast(ast.Attribute, node.func)
-    parent = cast(ast.Name, func.value).id
+    if not isinstance(func.value, ast.Name):
+        raise NotImplementedError(ast.unparse(func))
+    parent = func.value.id
     attr = func.attr
 
     if parent in ("math", "np", "numpy"):
-        if (typ := UNARY.get(attr)) is not None:
-            sbml_node = libsbml.ASTNode(typ)
-            sbml_node.addChild(_convert_node(node.args[0]))
-            return sbml_node
-        if (typ := BINARY.get(attr)) is not None:
-            sbml_node = libsbml.ASTNode(typ)
-            sbml_node.addChild(_convert_node(node.args[0]))
-            sbml_node.addChild(_convert_node(node.args[1]))
-            return sbml_node
-        if (typ := NARY.get(attr)) is not None:
-            sbml_node = libsbml.ASTNode(typ)
-            for arg in node.args:
-                sbml_node.addChild(_convert_node(arg))
-            return sbml_node
+        return _convert_known_call(attr, node)
 
-    # General library call
-    sbml_node = libsbml.ASTNode(libsbml.AST_FUNCTION)
-    for arg in node.args:
-        sbml_node.addChild(_convert_node(arg))
-    return sbml_node
+    msg = f"Function {parent}.{attr} cannot be represented in SBML"
+    raise NotImplementedError(msg)
 
 
 def _convert_call(node: ast.Call) -> libsbml.ASTNode:
